@@ -82,6 +82,7 @@ class Env:
         self.script = script
         self.log: List[Tuple[str, int, Any]] = []
         self.ncalls: Dict[int, int] = {}
+        self.a: Any = types.SimpleNamespace(b=None)   # assignable attribute targets: `as E.a`, `as E.a.b`
         self.prog_code: Any = None       # set for the running-frame corpus
         self.on_probe: Any = None
 
@@ -118,10 +119,6 @@ class Env:
     @property
     def d(self) -> Any:
         return Env._AnyBox()
-
-    @property
-    def a(self) -> Any:
-        return types.SimpleNamespace(b=None)
 
     def f(self, *a: Any, **k: Any) -> Any:
         return types.SimpleNamespace()
